@@ -455,6 +455,14 @@ func tryConstEval(kind ExpressionKind, arena []Expression, module *Module) (Expr
 		// operator it returns 0, and a comparison would get the operand type
 		// instead of bool. Unfolded expressions stay valid run-time code.
 		if leftOk && rightOk && isFoldableArithmeticOp(k.Op) {
+			// 32-bit integers are folded with integer arithmetic: a float64
+			// product is inexact beyond 2^53 and the conversion back saturates,
+			// while WGSL integer arithmetic wraps.
+			if _, rightLit, ok := arenaExprAsFloat(arena, module, k.Right); ok {
+				if lit, folded := foldInt32Binary(k.Op, leftLit, rightLit); folded {
+					return lit, true
+				}
+			}
 			result := EvalBinaryFloat(k.Op, leftVal, rightVal)
 			return makeLiteralFromProto(leftLit, result), true
 		}
@@ -483,6 +491,52 @@ func tryConstEval(kind ExpressionKind, arena []Expression, module *Module) (Expr
 		}
 	}
 	return nil, false
+}
+
+// foldInt32Binary folds + - * / on two i32 or two u32 literals with wrapping
+// 32-bit arithmetic. Division by zero and INT_MIN / -1 are left to run time.
+func foldInt32Binary(op BinaryOperator, left, right Literal) (Literal, bool) {
+	switch a := left.Value.(type) {
+	case LiteralI32:
+		b, ok := right.Value.(LiteralI32)
+		if !ok {
+			return Literal{}, false
+		}
+		x, y := int32(a), int32(b)
+		switch op {
+		case BinaryAdd:
+			return Literal{Value: LiteralI32(x + y)}, true
+		case BinarySubtract:
+			return Literal{Value: LiteralI32(x - y)}, true
+		case BinaryMultiply:
+			return Literal{Value: LiteralI32(x * y)}, true
+		case BinaryDivide:
+			if y == 0 || (x == -2147483648 && y == -1) {
+				return Literal{}, false
+			}
+			return Literal{Value: LiteralI32(x / y)}, true
+		}
+	case LiteralU32:
+		b, ok := right.Value.(LiteralU32)
+		if !ok {
+			return Literal{}, false
+		}
+		x, y := uint32(a), uint32(b)
+		switch op {
+		case BinaryAdd:
+			return Literal{Value: LiteralU32(x + y)}, true
+		case BinarySubtract:
+			return Literal{Value: LiteralU32(x - y)}, true
+		case BinaryMultiply:
+			return Literal{Value: LiteralU32(x * y)}, true
+		case BinaryDivide:
+			if y == 0 {
+				return Literal{}, false
+			}
+			return Literal{Value: LiteralU32(x / y)}, true
+		}
+	}
+	return Literal{}, false
 }
 
 // isFoldableArithmeticOp reports whether EvalBinaryFloat evaluates op.
